@@ -70,6 +70,15 @@ def gen_design(rng, n_nodes, kinds, max_inputs=8, maxw=70, hier_depth=0, feedbac
         if any(w > maxw + 8 for w in ows):
             continue
         emit(k.name, params, ins, ows)
+    # option siblings: a second instance of a block on the same input wires, with the same port widths, that differs only in
+    # a constructor option / constant (the configuration in which a module name that ignores the option does harm)
+    if nodes and rng.random() < 0.3:
+        names = {k.name for k in kinds} | {k.name for k in (seq_kinds or [])}
+        cands = [n for n in nodes if n['kind'] in OPTION_VARIANTS and n['kind'] in names and not n.get('guard')]
+        for n in rng.sample(cands, min(len(cands), 2)):
+            p2 = OPTION_VARIANTS[n['kind']](rng, n['p'], n['ow'])
+            if p2 is not None and p2 != n['p']:
+                emit(n['kind'], p2, n['ins'], n['ow'])
     # widths of every signal
     sigw = {i['name']: i['w'] for i in pool.inputs}
     for n in nodes:
@@ -112,6 +121,19 @@ def gen_design(rng, n_nodes, kinds, max_inputs=8, maxw=70, hier_depth=0, feedbac
         # keep all, observability matters more than a small interface
         pass
     return {'inputs': pool.inputs, 'nodes': nodes, 'outputs': outs, 'order': [n['id'] for n in nodes]}
+
+
+OPTION_VARIANTS = {
+    'ShiftRight': lambda rng, p, ow: dict(p, mode={'logical': 'arith', 'arith': 'logical'}[p['mode']]) if p.get('mode') in ('logical', 'arith') else None,
+    'ShiftLeftConstant': lambda rng, p, ow: dict(p, n=p['n'] + 1),
+    'ShiftRightConstant': lambda rng, p, ow: dict(p, n=p['n'] + 1),
+    'Constant': lambda rng, p, ow: dict(p, value=(p['value'] ^ 1)),
+    'EqualConstant': lambda rng, p, ow: dict(p, v=(p['v'] ^ 1)),
+    'NotEqualConstant': lambda rng, p, ow: dict(p, v=(p['v'] ^ 1)),
+    'Reg': lambda rng, p, ow: dict(p, rv=((p['rv'] ^ 1) if p['rv'] >= 0 else p['rv'] - 1)),
+    'ParamScaler': lambda rng, p, ow: dict(p, step=p['step'] + 1),
+    'Sequence': lambda rng, p, ow: dict(p, values=list(reversed(p['values'])) + [p['values'][0] ^ 1]),
+}
 
 
 def node_domain(desc, n):
@@ -208,7 +230,14 @@ class Built:
     def __init__(self, desc, sysname='HWSystem'):
         self.desc = desc
         self.sigw = sig_widths(desc)
-        self.hw = py4hw.HWSystem()
+        if desc.get('own_top_driver'):
+            # the system is created around a clock driver of the caller (HWSystem(clock_driver=...)); the caller keeps its
+            # reference and gates the system through it
+            self.top_drv = py4hw.ClockDriver('clk', 50E6, 0)
+            self.hw = py4hw.HWSystem(clock_driver=self.top_drv)
+        else:
+            self.hw = py4hw.HWSystem()
+            self.top_drv = None
         self.dut = Dut(self.hw, 'dut')
         self.groups = {(): self.dut}
         self.wires = {}
@@ -362,8 +391,9 @@ class Built:
         for i in self.desc['inputs']:
             self.wire(i['name'])
         self._flush_drivers()
-        if self.desc.get('top_enable') and self.hw.clockDriver.enable is None:
-            self.hw.clockDriver.enable = self.wire(self.desc['top_enable'])
+        drv = self.top_drv if self.top_drv is not None else self.hw.clockDriver
+        if self.desc.get('top_enable') and drv.enable is None:
+            drv.enable = self.wire(self.desc['top_enable'])
         return self
 
     def set_inputs(self, vec):
